@@ -336,16 +336,23 @@ class _InvalidPrinterResult(ValueError):
     """A pretty printer returned something that is not a str or Doc."""
 
 
+def _printer_name(pretty_fn):
+    # A printer need not be a function: callable objects such as
+    # functools.partial have no __qualname__ (or __module__) of their own.
+    cls = type(pretty_fn)
+    return '{}.{}'.format(
+        getattr(pretty_fn, '__module__', None) or cls.__module__,
+        getattr(pretty_fn, '__qualname__', None) or cls.__qualname__
+    )
+
+
 def _warn_about_bad_printer(pretty_fn, value, exc):
     if isinstance(exc, _InvalidPrinterResult):
         # A misbehaving printer further down is a programming error
         # that must reach the caller; it is not a failure of pretty_fn.
         raise exc
 
-    fnname = '{}.{}'.format(
-        pretty_fn.__module__,
-        pretty_fn.__qualname__
-    )
+    fnname = _printer_name(pretty_fn)
     warnings.warn(
         "The pretty printer for {}, {}, raised an exception. "
         "Falling back to default repr.\n\n{}".format(
@@ -377,10 +384,7 @@ def _run_pretty(pretty_fn, value, ctx, trailing_comment=None):
             try:
                 sig.bind(value, ctx, trailing_comment=trailing_comment)
             except TypeError:
-                fnname = '{}.{}'.format(
-                    pretty_fn.__module__,
-                    pretty_fn.__qualname__
-                )
+                fnname = _printer_name(pretty_fn)
                 warnings.warn(
                     "The pretty printer for {}, {}, does not support rendering "
                     "trailing comments. It will not show up in output.".format(
@@ -409,10 +413,7 @@ def _run_pretty(pretty_fn, value, ctx, trailing_comment=None):
         isinstance(doc, str) or
         isinstance(doc, Doc)
     ):
-        fnname = '{}.{}'.format(
-            pretty_fn.__module__,
-            pretty_fn.__qualname__
-        )
+        fnname = _printer_name(pretty_fn)
         raise _InvalidPrinterResult(
             'Functions decorated with register_pretty must return '
             'an instance of str or Doc. {} returned '
@@ -537,10 +538,7 @@ def register_pretty(type=None, predicate=None):
         try:
             sig.bind(value, ctx)
         except TypeError:
-            fnname = '{}.{}'.format(
-                fn.__module__,
-                fn.__qualname__
-            )
+            fnname = _printer_name(fn)
             raise ValueError(
                 "Functions decorated with register_pretty must accept "
                 "exactly two positional parameters: 'value' and 'ctx'. "
